@@ -179,8 +179,87 @@ pub fn run(args: &Args, tier: &str, seed: u64, backend: &str) -> Report {
         });
     }
     let mut rep = rep_m.into_inner().unwrap();
+    // ---- one client object used for two sends while the server's certificate changes in between (same port, the server keeps
+    // its session cache): the second send meets an expired certificate and must be refused - a client that keeps TLS state
+    // between sends (a cached configuration resuming the earlier session) would not look at the certificate again
+    if only.is_none() && !reduced {
+        for kind in [Kind::Blocking, Kind::Async] {
+            for (second_leaf, second_must_accept) in [("expired", false), ("wronghost", false), ("valid", true)] {
+                rep.eval();
+                rep.count("client_reuse_sequences", 1);
+                let cell = format!("{kind:?}/{backend}/reuse/valid-then-{second_leaf}");
+                rep.nontrivial(vkit::rng::hash64(cell.as_bytes()));
+                let replay = vec!["c12".to_string()];
+                let first = crate::server::certified_key(&format!("{certs}/valid.pem"), &format!("{certs}/valid.key"));
+                let second = crate::server::certified_key(&format!("{certs}/{second_leaf}.pem"), &format!("{certs}/{second_leaf}.key"));
+                let (first, second) = match (first, second) {
+                    (Ok(a), Ok(b)) => (a, b),
+                    (a, b) => {
+                        rep.inconclusive(format!("harness: certificates for the client-reuse sequence: {:?} {:?}", a.err(), b.err()));
+                        continue;
+                    }
+                };
+                let switch = Arc::new(crate::server::SwitchableCert(Mutex::new(first)));
+                let cfg = match crate::server::tls_config_switchable(switch.clone()) {
+                    Ok(c) => c,
+                    Err(e) => {
+                        rep.inconclusive(format!("harness: switchable TLS peer: {e}"));
+                        continue;
+                    }
+                };
+                let srv = Server::start(Some(cfg)).expect("tls server");
+                let resp = response.clone();
+                srv.on("r1", Arc::new(move |_r: &Req| Plan::ok(resp.clone())));
+                let uri = format!("ipps://localhost:{}/case/r1/ipp/print", srv.port);
+                let ccfg = ClientCfg { ignore_tls: None, ca: root_bytes("pem"), timeout_ms: Some(30_000), ..ClientCfg::default() };
+                let mk = |n: u32| {
+                    let mut req = mirror::to_ipp(&request(n));
+                    *req.payload_mut() = ipp::payload::IppPayload::new(std::io::Cursor::new(b"SECRET-DOCUMENT".to_vec()));
+                    req
+                };
+                let (r1, r2, seen_after) = match kind {
+                    Kind::Blocking => {
+                        let c = blocking_client(&uri, &ccfg);
+                        let r1 = send_blocking(&c, mk(1));
+                        *switch.0.lock().unwrap() = second.clone();
+                        let before = srv.requests_for("r1").len();
+                        let r2 = send_blocking(&c, mk(2));
+                        std::thread::sleep(std::time::Duration::from_millis(50));
+                        (r1, r2, srv.requests_for("r1").len() - before)
+                    }
+                    Kind::Async => {
+                        let c = async_client(&uri, &ccfg);
+                        let r1 = send_async(&rt, &c, mk(1));
+                        *switch.0.lock().unwrap() = second.clone();
+                        let before = srv.requests_for("r1").len();
+                        let r2 = send_async(&rt, &c, mk(2));
+                        std::thread::sleep(std::time::Duration::from_millis(50));
+                        (r1, r2, srv.requests_for("r1").len() - before)
+                    }
+                };
+                srv.stop();
+                if !r1.is_ok() {
+                    rep.violation(format!("C12:rejected-trusted-server:{kind:?}:{backend}:reuse-first-send"), format!("cell {cell}: the first send to the valid server failed: {}", r1.short()), replay.clone());
+                    continue;
+                }
+                match (r2.is_ok(), second_must_accept) {
+                    (true, true) | (false, false) => {
+                        if !second_must_accept && seen_after > 0 {
+                            rep.violation(format!("C12:request-reached-rejected-server:{kind:?}:{backend}"), format!("cell {cell}: the second send failed but the peer application saw {seen_after} request(s)"), replay.clone());
+                        }
+                    }
+                    (true, false) => rep.violation(
+                        format!("C12:accepted-unauthenticated-server:{kind:?}:{backend}"),
+                        format!("cell {cell}: the same client object was used again after the server's certificate had become '{second_leaf}': send returned Ok ({seen_after} request(s) reached the peer)"),
+                        replay.clone(),
+                    ),
+                    (false, true) => rep.violation(format!("C12:rejected-trusted-server:{kind:?}:{backend}:reuse-second-send"), format!("cell {cell}: second send through the same client failed: {}", r2.short()), replay.clone()),
+                }
+            }
+        }
+    }
     rep.extra.insert("tls_backend_of_this_build".into(), J::Str(backend.to_string()));
-    rep.rule = format!("Complete matrix for the {backend} build: {{blocking, async}} x ignore_tls_errors {{unset, false, true}} x extra root {{none, correct CA as PEM, as DER, unrelated CA, second (tiny Ed25519, DER < 256 bytes and ending in a 0x0a octet) CA as PEM, as DER, correct CA as PEM with CRLF line endings and a leading comment line, correct CA as PEM behind its `openssl x509 -text` dump}} x server certificate {{valid for localhost, wrong host name, expired, self-signed, signed by an unknown CA, valid under the second CA, expired less than a minute before the run}} = 336 cells per TLS backend build, the target written ipps:// or https:// (quick: one spelling per cell chosen by cell hash and seed; thorough: both, x {{1.2+1.3, 1.2-only, 1.3-only}} peers), against a loopback rustls peer with freshly generated CAs. Oracle: accept <=> ignore == true or the supplied root (PEM or DER) is the one the valid leaf chains to; in every rejected cell the peer application must have received zero decrypted bytes. Four builds are run and merged by the driver: both clients on native-tls, both on rustls (full matrix each), and the two mixed builds - blocking native-tls + async rustls, blocking rustls + async native-tls - with the full matrix in thorough and a 36-cell sub-matrix ({{valid, wrong host, expired}} x {{no root, PEM, DER}} x {{unset, true}} x 2 clients) in quick.");
+    rep.rule = format!("Complete matrix for the {backend} build: {{blocking, async}} x ignore_tls_errors {{unset, false, true}} x extra root {{none, correct CA as PEM, as DER, unrelated CA, second (tiny Ed25519, DER < 256 bytes and ending in a 0x0a octet) CA as PEM, as DER, correct CA as PEM with CRLF line endings and a leading comment line, correct CA as PEM behind its `openssl x509 -text` dump}} x server certificate {{valid for localhost, wrong host name, expired, self-signed, signed by an unknown CA, valid under the second CA, expired less than a minute before the run}} = 336 cells per TLS backend build, the target written ipps:// or https:// (quick: one spelling per cell chosen by cell hash and seed; thorough: both, x {{1.2+1.3, 1.2-only, 1.3-only}} peers), against a loopback rustls peer with freshly generated CAs. Oracle: accept <=> ignore == true or the supplied root (PEM or DER) is the one the valid leaf chains to; in every rejected cell the peer application must have received zero decrypted bytes. Plus client-reuse sequences: one client object sends to a valid server, the server's certificate is then exchanged (same port, session cache kept) for an expired / wrong-host / valid one, and the same client sends again - refused, refused, accepted. Four builds are run and merged by the driver: both clients on native-tls, both on rustls (full matrix each), and the two mixed builds - blocking native-tls + async rustls, blocking rustls + async native-tls - with the full matrix in thorough and a 36-cell sub-matrix ({{valid, wrong host, expired}} x {{no root, PEM, DER}} x {{unset, true}} x 2 clients) in quick.");
     if only.is_none() {
         let want = if reduced { 36 } else { 336 * version_sets.len() * if tier == "thorough" { 2 } else { 1 } };
         rep.require(rep.evaluations as usize >= want, "all cells of the matrix executed");
